@@ -38,6 +38,7 @@ func runC05(r *core.Run) {
 		{"ext", core.AExt, 4, 6, []string{"gfm", "footnote", "deflist", "all", "all+attr+autoid"}},
 		{"bytes", core.ABytes, 4, 5, []string{"core", "all+cjk"}},
 		{"html", core.AHTML, 4, 5, []string{"core"}},
+		{"tab", core.ATab, 5, 6, []string{"core", "all+attr+autoid"}},
 	}
 	for _, sp := range specs {
 		n := core.Pick(r, sp.nq, sp.nt)
